@@ -120,3 +120,60 @@ static std::string h_seek(const std::string& arg)
 	return out;
 }
 HANDLER("seek", h_seek);
+
+// seekm <root> <m> <n,n,...> [P:ids] T...   — C12 round 3: a seek on a player that is NOT fresh.
+// After m+1 play_tick() calls: skip_ticks(n) vs n more play_tick() calls (C12_seek_eq_play_after_play).
+// The label printed is the total m+n (what the judge compares the play time with when the track has ended).
+static std::string h_seekm(const std::string& arg)
+{
+	std::vector<std::string> toks = split_ws(arg), rest;
+	std::string out;
+	{
+		Song probe;
+		setup_song(probe, toks, rest);
+	}
+	uint16_t root = (uint16_t)strtoul(rest.at(0).c_str(), 0, 10);
+	unsigned m = strtoul(rest.at(1).c_str(), 0, 10);
+	std::istringstream ns(rest.at(2));
+	std::string nstr;
+	while(std::getline(ns, nstr, ','))
+	{
+		unsigned n = strtoul(nstr.c_str(), 0, 10);
+		std::string a, b, fa, fb;
+		char buf[32];
+		snprintf(buf, sizeof buf, "%s#%u ", out.empty() ? "" : " ", m + n);
+		out += buf;
+		{
+			Song song; std::vector<std::string> r; setup_song(song, toks, r);
+			Rec_Player p(song, song.get_track(root));
+			try
+			{
+				for(unsigned i = 0; i < m + 1; i++) p.play_tick();
+				p.rec.clear();
+				p.skip_ticks(n);
+				a = Player_Test::dump(song, p);
+				a += "/w=" + (p.rec.empty() ? std::string("-") : p.rec);
+				p.rec.clear();
+				for(int i = 0; i < 24; i++) { p.play_tick(); p.rec += "|"; }
+				fa = p.rec;
+			}
+			catch(InputError& e) { a = "err:" + msg_token(e.what()); }
+		}
+		{
+			Song song; std::vector<std::string> r; setup_song(song, toks, r);
+			Rec_Player p(song, song.get_track(root));
+			try
+			{
+				for(unsigned i = 0; i < m + 1 + n; i++) p.play_tick();
+				b = Player_Test::dump(song, p);
+				p.rec.clear();
+				for(int i = 0; i < 24; i++) { p.play_tick(); p.rec += "|"; }
+				fb = p.rec;
+			}
+			catch(InputError& e) { b = "err:" + msg_token(e.what()); }
+		}
+		out += "skip=" + a + " play=" + b + " fut=" + (fa == fb ? "same:" : "DIFF:") + fa;
+	}
+	return out;
+}
+HANDLER("seekm", h_seekm);
